@@ -92,6 +92,11 @@ LITERALS = ['"plain"', '""', '"a""b"', '"a\\"b"', '"t\\tn\\nr\\rb\\\\q"', '"\\a\
 def corpus(tier):
     for s in c01.SEEDS:
         yield "seed", "", s
+    # integer-valued decimals that need 17 significant digits and print without point or exponent
+    for k in range(53, 57):
+        for j in (1, 2, 3, 5):
+            d = float(2 ** k + 2 ** (k - 52) * j)
+            yield "literal", "", "v = %d.0; print v typeof(v); print v / 1000; w2 = v %% 1000; print w2;" % int(d)
     for lit in LITERALS:
         yield "literal", "", "v = %s; print v; w2 = v; print typeof(v);" % lit
     for d in c03.dec_lattice(tier):
@@ -119,6 +124,9 @@ def corpus(tier):
     types = ["undefined", "boolean", "integer", "decimal", "complex", "string", "bytes", "tuple", "table"]
     for t in types:
         yield "decl", "", "v:%s; print typeof(v) isnull(v);" % t
+        # statements chained after a typed declaration, at top level and in a function body
+        yield "decl", "", "n = 100; v:%s, n = 1, print n; print typeof(v) n;" % t
+        yield "decl", "", ("function fd() return integer is begin acc = 7; v:%s, acc = acc + 1000; w:%s, acc = acc + 1; return acc; end; print fd();" % (t, t))
         yield "func-type", "", "function ft(a:%s) return %s is begin return a; end; print isnull(ft(null));" % (t, t if t != "bytes" else "bytes")
         for t2 in types[1:4]:
             yield "func-type", "", "function ft(a:%s, b, c:%s) return %s is begin return c; end; print isnull(ft(null, 1, null));" % (t, t2, t2)
